@@ -668,10 +668,10 @@ def s_query_dense(draw):
     CRS: the outline the caller hands over already follows its true (curved) shape in the raster's CRS, so every tile
     under the bulge of an edge is decided, not lost in the ambiguity band of a sparse outline."""
     la, lb = draw(st.sampled_from([p for p in LABEL_PAIRS if p[0] in ("3577", "3035", "32633", "32755", "sinu") and p[1] in ("4326", "4283", "3857", "6933")]))
-    rec = draw(placed_boxes(la, lb, maxt=6, max_side=48, extents=(1e6, 2e6, 3e6), max_px=2e5))
+    rec = draw(placed_boxes(la, lb, maxt=14, max_side=160, extents=(1e6, 2e6, 3e6, 4e6), max_px=2e5))
     ye, xe = layout_edges(rec["shape"], rec["tiles"])
     q = draw(pix_queries(rec["shape"], ye, xe, far=(1,), maxlen=1.0, kinds=("box", "box", "tri", "L", "hole")))
-    return {"rec": rec, "q": q, "qcrs": draw(spelled(lb)), "mode": "geom", "dense": draw(st.sampled_from([12, 24, 48])),
+    return {"rec": rec, "q": q, "qcrs": draw(spelled(lb)), "mode": draw(st.sampled_from(["geom", "geom", "bbox"])), "dense": draw(st.sampled_from([12, 24, 48])),
             "box_in_b": draw(st.sampled_from([True, True, False]))}
 
 
@@ -724,7 +724,11 @@ def o_query_other(case, T):
         if not (bx0 < bx1 and by0 < by1):
             T.exclude("degenerate_query")
             return
-        oracle_parts = [(np.array([[bx0, by0], [bx1, by0], [bx1, by1], [bx0, by1]]), [])]
+        # a BoundingBox denotes the rectangle [x0,x1] x [y0,y1] of ITS crs - nothing about it is open to
+        # interpretation, so the ambiguity band is that of a 16-segments-per-side outline (any reasonable densification
+        # of the box lies inside it), not that of the four-corner quadrilateral
+        oracle_parts = [(_ring_dense(np.array([[bx0, by0], [bx1, by0], [bx1, by1], [bx0, by1]]), 15), [])]
+        EXTRA = 3
     else:
         oracle_parts = parts_b
     # the query as it really lies in the pixel plane of the raster (edges straight in ITS crs -> curved here)
